@@ -5,6 +5,7 @@ from anytree import search, cachedsearch
 from .util import build, CLASSES
 
 NUM = re.compile(r"-?\d+")
+_MISSING = object()
 
 
 def canon_count_error(e):
@@ -13,49 +14,76 @@ def canon_count_error(e):
     return {"CountError": [msg.startswith("Expecting at least"), nums[0], nums[1]]}
 
 
+def _thunk(mod, start, q):
+    """one query as a re-callable thunk: calling it twice passes the *same* argument objects (the same
+    filter/stop functions, equal values), as a caller holding on to its predicates would"""
+    fn = q["fn"]
+    if fn in ("findall", "find"):
+        fo, st = set(q["filter_out"]), set(q["stop"])
+        kw = {}
+        if fo or not q.get("defaults"):
+            kw["filter_"] = lambda n: n.label not in fo
+        if st or not q.get("defaults"):
+            kw["stop"] = lambda n: n.label in st
+        if q["maxlevel"] is not None or not q.get("defaults"):
+            kw["maxlevel"] = q["maxlevel"]
+        if fn == "findall":
+            if q["mincount"] is not None or not q.get("defaults"):
+                kw["mincount"] = q["mincount"]
+            if q["maxcount"] is not None or not q.get("defaults"):
+                kw["maxcount"] = q["maxcount"]
+            return lambda: {"ok": [n.label for n in mod.findall(start, **kw)]}
+
+        def find():
+            r = mod.find(start, **kw)
+            return {"ok": None if r is None else r.label}
+        return find
+    if fn == "findall_by_attr":
+        return lambda: {"ok": [n.label for n in mod.findall_by_attr(
+            start, q["value"], name=q["name"], maxlevel=q["maxlevel"], mincount=q["mincount"], maxcount=q["maxcount"])]}
+    if fn == "find_by_attr":
+        def find_by_attr():
+            r = mod.find_by_attr(start, q["value"], name=q["name"], maxlevel=q["maxlevel"])
+            return {"ok": None if r is None else r.label}
+        return find_by_attr
+    raise ValueError(fn)
+
+
+def _run(thunk):
+    try:
+        return thunk()
+    except search.CountError as e:
+        return canon_count_error(e)
+    except Exception as e:
+        return {"exc": type(e).__name__}
+
+
 def impl(case):
     cls = CLASSES[case.get("cls", "nm")]
     root, index = build(case["tree"], cls)
-    if cls is CLASSES["nm"]:
+    if issubclass(cls, CLASSES["nm"]):
         for lab, name, val in case["attrs"]:
             setattr(index[lab], name, val)
-        attrs_ok = True
-    else:
-        attrs_ok = False       # slots class: no extra attributes
     mod = cachedsearch if case.get("module") == "cachedsearch" else search
     start = index[case["start"]]
-    out = []
-    for q in case["queries"]:
-        fn = q["fn"]
-        try:
-            if fn in ("findall", "find"):
-                fo, st = set(q["filter_out"]), set(q["stop"])
-                kw = {}
-                if fo or not q.get("defaults"):
-                    kw["filter_"] = lambda n: n.label not in fo
-                if st or not q.get("defaults"):
-                    kw["stop"] = lambda n: n.label in st
-                if q["maxlevel"] is not None or not q.get("defaults"):
-                    kw["maxlevel"] = q["maxlevel"]
-                if fn == "findall":
-                    if q["mincount"] is not None or not q.get("defaults"):
-                        kw["mincount"] = q["mincount"]
-                    if q["maxcount"] is not None or not q.get("defaults"):
-                        kw["maxcount"] = q["maxcount"]
-                    r = mod.findall(start, **kw)
-                    out.append({"ok": [n.label for n in r]})
-                else:
-                    r = mod.find(start, **kw)
-                    out.append({"ok": None if r is None else r.label})
-            elif fn == "findall_by_attr":
-                r = mod.findall_by_attr(start, q["value"], name=q["name"], maxlevel=q["maxlevel"],
-                                        mincount=q["mincount"], maxcount=q["maxcount"])
-                out.append({"ok": [n.label for n in r]})
-            elif fn == "find_by_attr":
-                r = mod.find_by_attr(start, q["value"], name=q["name"], maxlevel=q["maxlevel"])
-                out.append({"ok": None if r is None else r.label})
-        except search.CountError as e:
-            out.append(canon_count_error(e))
-        except Exception as e:
-            out.append({"exc": type(e).__name__})
-    return out
+    thunks = [_thunk(mod, start, q) for q in case["queries"]]
+    warm = case.get("warm")
+    if warm:
+        # the same calls were made earlier, on an earlier state of the same tree (other attribute values, one
+        # more node): results must always describe the tree as it is *now*
+        extra = cls(-1, parent=index[warm["under"]])
+        saved = []
+        if issubclass(cls, CLASSES["nm"]):
+            extra.x = warm.get("xval", 0)
+            for lab, name, val in warm.get("attrs", []):
+                saved.append((lab, name, getattr(index[lab], name, _MISSING)))
+                setattr(index[lab], name, val)
+        for t in thunks:
+            _run(t)
+        extra.parent = None
+        for lab, name, old in reversed(saved):
+            if old is _MISSING:
+                delattr(index[lab], name)
+            else:
+                setattr(index[lab], name, old)
+    return [_run(t) for t in thunks]
